@@ -21,7 +21,7 @@ import os
 import re
 
 from ..astq import strip, strip_casts, calls, call_args, call_object, norm, literal_value, src, writes, written_field
-from ..facts import AnalysisBroken, VERIF
+from ..facts import AnalysisBroken, VERIF, walk
 from ..rules import ptrorder
 from .c15 import rule_init
 
@@ -323,6 +323,28 @@ def rule_global_state(chk, prog):
                     r.ok(key, f.loc(n), "reviewed: " + tl[key])
                 else:
                     r.bad(key, f.loc(n), "new mutable static local `%s` in %s: state that survives between calls" % (n.get("name"), f.q))
+            elif n.get("k") == "VarDecl" and (n.get("static") or n.get("sc") == "static") and "/tests/" not in f.file:
+                # a const static local is initialised once, on the first call: harmless only if the initialiser is a constant expression
+                dyn = None
+                for x in walk(n.get("init") or {}):
+                    if x.get("k") == "DeclRefExpr" and x.get("rk") in ("Var", "ParmVar"):
+                        v = prog.vars.get(str(x.get("ref")))
+                        if v is None or "const" not in str(v.get("t", "")):
+                            dyn = dyn or "`%s`" % x.get("ref")
+                    elif x.get("k") in ("CallExpr", "CXXMemberCallExpr", "CXXOperatorCallExpr") and not str(x.get("cname", "")).startswith("std::numeric_limits"):
+                        dyn = dyn or "a call of %s" % x.get("cname")
+                    elif x.get("k") == "CXXThisExpr":
+                        dyn = dyn or "`this`"
+                key = "%s: %s" % (re.sub(r"<[^<>]*>", "", f.q), n.get("name"))
+                if key in seen:
+                    continue
+                seen.add(key)
+                r.count()
+                if dyn and key not in tl:
+                    r.bad(key, f.loc(n), "const static local `%s` in %s is initialised from %s: it keeps the value of the FIRST call for the rest of "
+                          "the process" % (n.get("name"), f.q, dyn))
+                else:
+                    r.ok(key, f.loc(n), "constant initialiser" if not dyn else "reviewed: " + tl[key])
 
 
 def _basename_(cname):
